@@ -47,8 +47,11 @@ let print_trace t =
 let parse_outcomes s =
   let toks = List.filter (fun x -> x <> "") (String.split_on_char ' ' s) in
   List.map (fun t ->
-      if t = "I" then Eintr else if t = "F" then Fail else if t = "Z" then Zero
-      else Xfer (n_of_int (int_of_string (String.sub t 1 (String.length t - 1))))) toks
+      (* errno-carrying kernel answers (C12/Eagain.v): I = EINTR, F = EIO, A = EAGAIN, E<n> = errno n *)
+      if t = "I" then KErrno c_EINTR else if t = "F" then KErrno c_EIO else if t = "A" then KErrno c_EAGAIN
+      else if t = "Z" then KZero
+      else if t.[0] = 'E' then KErrno (n_of_int (int_of_string (String.sub t 1 (String.length t - 1))))
+      else KXfer (n_of_int (int_of_string (String.sub t 1 (String.length t - 1))))) toks
 
 let words s = List.filter (fun x -> x <> "") (String.split_on_char ' ' s)
 
@@ -78,7 +81,11 @@ let () =
               | "trunc" -> OpTrunc (a 0) | "fsize" -> OpFSize
               | _ -> failwith ("bad op " ^ opname) in
             let pending_before = List.append (dropN !w.w_in.i_off !w.w_in.i_buf) !w.w_src in
-            let (((x, w'), t), r') = run !bufsz !zchunk (op_client fuel op) !w !rest in
+            let consumed_before = List.length !rest in
+            let (((x, w'), t), r'c) = run_k !bufsz !zchunk (op_client fuel op) !w !rest in
+            (* run_k returns the classified rest; keep the errno-carrying one *)
+            let rec drop k l = if k <= 0 then l else match l with [] -> [] | _ :: r -> drop (k - 1) r in
+            let r' = drop (consumed_before - List.length r'c) !rest in
             (* unproved lemma re-observed: get_line on the buffered stream = spec_get_line on the unsplit bytes *)
             (match op, x with
              | OpLine fl, XL (LErr _) -> ()
